@@ -33,6 +33,27 @@ def _resolve_local(fa: FA, e, at_stmt):
     return e
 
 
+def _generated_fields(cls):
+    """field names, in order, of a class whose constructor is generated from its annotated class attributes (a dataclass or a
+    typing.NamedTuple); None for any other class"""
+    decos = [A.norm(d.func if isinstance(d, ast.Call) else d) for d in cls.node.decorator_list]
+    if not (any(d.split(".")[-1] == "dataclass" for d in decos) or any(b.split(".")[-1] == "NamedTuple" for b in cls.base_exprs)):
+        return None
+    return [st.target.id for st in cls.node.body if isinstance(st, ast.AnnAssign) and isinstance(st.target, ast.Name)
+            and "ClassVar" not in A.norm(st.annotation)]
+
+
+def _entry_size_index(fa: FA) -> int:
+    """position of the size among the constructor arguments of the cache entry class"""
+    try:
+        ecls = fa.ck.repo.cls("storage_base._CacheEntry")
+    except Exception:
+        return 0
+    ce = ecls.methods.get("__init__")
+    names = list(ce.params[1:]) if ce is not None else (_generated_fields(ecls) or [])
+    return names.index("obj_size") if "obj_size" in names else 0
+
+
 def size_forms(fa: FA, ins: ast.Assign):
     """The inserted entry and the ways its size may be written at this insertion site:
     the first argument of `_CacheEntry(...)` and `<entry local>.obj_size`.  Returns
@@ -40,7 +61,7 @@ def size_forms(fa: FA, ins: ast.Assign):
     entry = _resolve_local(fa, ins.value, ins)
     if not (isinstance(entry, ast.Call) and A.call_attr(entry) == "_CacheEntry"):
         return None, None, set()
-    size_expr = A.arg_or_kw(entry, 0, "obj_size")
+    size_expr = A.arg_or_kw(entry, _entry_size_index(fa), "obj_size")
     forms = set()
     if size_expr is not None:
         forms.add(A.norm(size_expr))
@@ -313,11 +334,27 @@ def check_accounting(ck, cm: CacheModel):
                 for t in ts:
                     if isinstance(t, ast.Attribute) and t.attr == "obj_size" and not (fi.cls and fi.cls.name == "_CacheEntry"):
                         ck.ob(R, "%s::%s" % (q, A.head(n)), False, "an entry's recorded size is modified after construction", A.loc(fi, n))
-    ce = ck.repo.cls("storage_base._CacheEntry").methods.get("__init__")
-    ck.need(ce is not None, "_CacheEntry.__init__ not found")
-    stores = [s for s in A.all_stmts(ce.node) if any(self_attr(t, "obj_size") and isinstance(v, ast.Name) and v.id == "obj_size" for (t, v) in assign_pairs(s))]
-    ck.ob(R, ce.qual + "::obj_size", bool(stores), "entry stores the size it was given" if stores else
-          "_CacheEntry does not store its obj_size parameter", A.loc(ce, ce.node))
+    ecls = ck.repo.cls("storage_base._CacheEntry")
+    ce = ecls.methods.get("__init__")
+    if ce is None:
+        # a generated constructor (dataclass / NamedTuple) stores every declared field from the parameter of the same name
+        gen = _generated_fields(ecls)
+        ck.need(gen is not None, "_CacheEntry has neither an __init__ nor a generated constructor (dataclass / NamedTuple)")
+        post = ecls.methods.get("__post_init__")
+        rew = post is not None and any(isinstance(t, ast.Attribute) and t.attr == "obj_size" for n in ast.walk(post.node)
+                                       for t in (n.targets if isinstance(n, ast.Assign) else [n.target] if isinstance(n, (ast.AugAssign, ast.AnnAssign)) else []))
+        ok = "obj_size" in gen and not rew
+        ck.ob(R, ecls.qual + ".__init__::obj_size", ok, "entry stores the size it was given" if ok else
+              "_CacheEntry does not store its obj_size parameter", A.loc(ecls, ecls.node))
+    else:
+        stores = []
+        for s_ in A.all_stmts(ce.node):
+            for (t, v) in assign_pairs(s_):
+                pairs = list(zip(t.elts, v.elts)) if isinstance(t, (ast.Tuple, ast.List)) and isinstance(v, (ast.Tuple, ast.List)) and len(t.elts) == len(v.elts) else [(t, v)]
+                if any(self_attr(t2, "obj_size") and isinstance(v2, ast.Name) and v2.id == "obj_size" for (t2, v2) in pairs):
+                    stores.append(s_)
+        ck.ob(R, ce.qual + "::obj_size", bool(stores), "entry stores the size it was given" if stores else
+              "_CacheEntry does not store its obj_size parameter", A.loc(ce, ce.node))
 
 
 class BudgetTests:
@@ -449,7 +486,8 @@ class BudgetTests:
         kinds = {(1, 1, -1): ("room", 1), (-1, -1, 1): ("room", -1), (0, 1, -1): ("oversize", 1), (0, -1, 1): ("oversize", -1),
                  (1, 0, -1): ("counter-only", 1), (-1, 0, 1): ("counter-only", -1)}
         if v not in kinds:
-            return None
+            # every operand is understood, but the comparison is not one of budget and accounts: it establishes nothing
+            return "other", {True: None, False: None}
         kind, k = kinds[v]
         if k < 0:
             op = {ast.Gt: ast.Lt, ast.Lt: ast.Gt, ast.GtE: ast.LtE, ast.LtE: ast.GtE}.get(op, op)
@@ -509,6 +547,7 @@ class BudgetTests:
         if kind == "room" and not self._fresh(dn, nid):
             return None
         inner = {}
+        v = self._inline_predicates(v)
         for lf in bool_leaves(v):
             bf = self.budget_fact(lf, dn)
             ef = self.empty_fact(lf, dn) if kind == "room" else None
@@ -529,11 +568,15 @@ class BudgetTests:
         out = set()
         cm = self.cm
         watched = {"attr:self." + cm.counter, "attr:self." + cm.queue, "attr:self." + cm.budget}
+        if kind == "room":
+            out |= self._empty_queue_exception_edges()
+            out |= self._counted_loop_exhaustion_edges()
         for n in self.fa.cfg.nodes:
             if n.kind != "test" or n.ast is None:
                 continue
             facts = {}
-            for lf in bool_leaves(n.ast):
+            test = self._inline_predicates(n.ast)
+            for lf in bool_leaves(test):
                 bf = self.budget_fact(lf, n.id)
                 ef = self.empty_fact(lf, n.id) if kind == "room" else None
                 sub = self._flag_facts(lf, n.id, kind) if bf is None and ef is None else None
@@ -557,8 +600,129 @@ class BudgetTests:
                 return False
 
             for label in ("T", "F"):
-                if edge_implies(n.ast, label == "T", fact_of):
+                if edge_implies(test, label == "T", fact_of):
                     out.add((n.id, label))
+        return out
+
+    def _inline_predicates(self, test):
+        """`while self._needs_room(size):` -- a test that calls a method of the cache whose body is one `return <expression>`
+        says what that expression says with the arguments put in (it is evaluated right there, so what it reads is current).
+        -> the test itself, or a copy with such calls replaced by the helper's expression."""
+        import copy
+        cls = self.cm.cls
+
+        def helper_expr(c):
+            f = c.func
+            if not (isinstance(f, ast.Attribute) and isinstance(f.value, ast.Name) and f.value.id in ("self", cls.name) and f.attr in cls.methods):
+                return None
+            m = cls.methods[f.attr]
+            body = A.sig_stmts(m.node.body)
+            if len(body) != 1 or not isinstance(body[0], ast.Return) or body[0].value is None:
+                return None
+            params = list(m.params) if m.is_static else list(m.params[1:])
+            if any(isinstance(a, ast.Starred) for a in c.args) or any(k.arg is None for k in c.keywords) or len(c.args) > len(params):
+                return None
+            bind = dict(zip(params, c.args))
+            for k in c.keywords:
+                if k.arg not in params or k.arg in bind:
+                    return None
+                bind[k.arg] = k.value
+            if set(bind) != set(params):
+                return None
+            me = None if m.is_static else m.params[0]
+
+            class Sub(ast.NodeTransformer):
+                def visit_Name(self, n):
+                    if isinstance(n.ctx, ast.Load) and n.id in bind:
+                        return copy.deepcopy(bind[n.id])
+                    if me is not None and n.id == me and me != "self":
+                        return ast.copy_location(ast.Name(id="self", ctx=n.ctx), n)
+                    return n
+
+            return Sub().visit(copy.deepcopy(body[0].value))
+
+        if not any(isinstance(x, ast.Call) and helper_expr(x) is not None for x in ast.walk(test)):
+            return test
+
+        class Inl(ast.NodeTransformer):
+            def visit_Call(self, c):
+                self.generic_visit(c)
+                e = helper_expr(c)
+                return ast.copy_location(e, c) if e is not None else c
+
+        out = Inl().visit(copy.deepcopy(test))
+        ast.fix_missing_locations(out)
+        return out
+
+    def _counted_loop_exhaustion_edges(self):
+        """(node, 'F') for `for _ in range(len(self.queue)):` loops in which every completed iteration takes at least one key
+        out of the queue and nothing puts one in: when such a loop runs out, the queue is empty."""
+        out = set()
+        fa, cm = self.fa, self.cm
+        cfg = fa.cfg
+        for n in cfg.nodes:
+            if n.kind != "for" or n.ast is None:
+                continue
+            it = n.ast.iter
+            if not (isinstance(it, ast.Call) and isinstance(it.func, ast.Name) and it.func.id == "range" and len(it.args) == 1 and not it.keywords
+                    and self._is_queue_len(it.args[0], n.id)):
+                continue
+            starts = [d for (d, l) in cfg.succ[n.id] if l == "T"]
+            region = {i for i in cfg.reach(starts, removed=[n.id]) if n.id in cfg.reach([i])}  # the loop body: can come round again
+            takers, spoiled = set(), False
+            for i in region:
+                nd = cfg.node(i)
+                if nd.ast is None or nd.kind not in ("stmt", "test", "for", "with"):
+                    continue
+                root = nd.ast.iter if nd.kind == "for" else nd.ast
+                if nd.kind == "with":
+                    root = ast.Tuple(elts=[w.context_expr for w in nd.ast.items], ctx=ast.Load())
+                for x in A.walk_local(root):
+                    if not isinstance(x, ast.Call):
+                        continue
+                    if self_attr(A.call_recv(x), cm.queue):
+                        if A.call_attr(x) in ("popleft", "pop", "remove") and fa.unconditional(x):
+                            takers.add(i)
+                        elif A.call_attr(x) not in ("popleft", "pop", "remove", "count", "index", "copy", "__len__", "__contains__"):
+                            spoiled = True
+                    elif cm.is_self_call(x, cm.evict) and x.args and fa.unconditional(x):
+                        a0 = safe_expand(fa, x.args[0], x)
+                        if isinstance(a0, ast.Subscript) and self_attr(a0.value, cm.queue):
+                            takers.add(i)  # the evict role takes the evicted key out of the queue (C06.R1 del-queue)
+                    elif isinstance(x.func, ast.Attribute) and isinstance(x.func.value, ast.Name) and x.func.value.id == "self" \
+                            and not cm.is_self_call(x, cm.evict):
+                        spoiled = True  # another method of the cache may queue a key
+            if spoiled or not takers:
+                continue
+            # a completed iteration: from the body's start back to the loop head
+            if n.id not in cfg.reach(starts, removed=takers):
+                out.add((n.id, "F"))
+        return out
+
+    def _empty_queue_exception_edges(self):
+        """(node, 'exc') for statements whose only way to fail is taking the left / right end of the EMPTY recency queue
+        (`v = self.queue.popleft()`, `self.queue[0]`) inside a try that catches IndexError: leaving by that edge means the
+        queue is empty."""
+        out = set()
+        fa, cm = self.fa, self.cm
+        cfg = fa.cfg
+        for n in cfg.nodes:
+            if n.kind != "stmt" or n.ast is None or not isinstance(n.ast, (ast.Assign, ast.Expr, ast.AnnAssign)):
+                continue
+            v = n.ast.value
+            takes = (isinstance(v, ast.Call) and A.call_attr(v) in ("popleft", "pop") and not v.args and self_attr(A.call_recv(v), cm.queue)) or \
+                (isinstance(v, ast.Subscript) and self_attr(v.value, cm.queue) and isinstance(v.slice, ast.Constant) and v.slice.value in (0, -1))
+            if not takes:
+                continue
+            if isinstance(n.ast, ast.Assign) and not all(isinstance(t, ast.Name) for t in n.ast.targets):
+                continue
+            for (d, l) in cfg.succ[n.id]:
+                dn = cfg.node(d)
+                if l == "exc" and dn.kind == "except" and dn.ast is not None and dn.ast.type is not None:
+                    t = dn.ast.type
+                    names = [A.norm(x) for x in (t.elts if isinstance(t, ast.Tuple) else [t])]
+                    if all(x in ("IndexError", "LookupError") for x in names):
+                        out.add((n.id, "exc"))
         return out
 
 
@@ -609,9 +773,9 @@ def _check_budget_site(ck, cm, R, fa, ins):
           fa.where(ins))
     # the loops that make room: While statements that evict and lead to the insertion
     loops = []
-    for wst in fa.stmts(ast.While):
+    for wst in fa.stmts((ast.While, ast.For)):
         evs = [c for c in A.calls_in(wst) if cm.is_self_call(c, cm.evict)]
-        heads = fa.nodes(wst.test)
+        heads = fa.nodes(wst.test) if isinstance(wst, ast.While) else fa.cfg.nodes_of(wst)
         if evs and heads and any(set(ins_nodes) & cfg.reach([h]) for h in heads):
             loops.append((wst, evs, heads))
     for (wst, evs, heads) in loops:
@@ -630,6 +794,13 @@ def _check_budget_site(ck, cm, R, fa, ins):
                 continue
             a0 = safe_expand(fa, c.args[0], c)
             if isinstance(a0, ast.Call) and A.call_attr(a0) == "popleft" and self_attr(A.call_recv(a0), cm.queue):
+                left.append(c)
+            elif isinstance(a0, ast.Subscript) and self_attr(a0.value, cm.queue) and isinstance(a0.slice, ast.Constant) and a0.slice.value == 0 \
+                    and a0.slice.value is not False:
+                left.append(c)  # the evict role takes the key out of the queue itself (C06.R1 del-queue)
+            elif isinstance(a0, ast.Call) and isinstance(a0.func, ast.Name) and a0.func.id == "next" and len(a0.args) == 1 \
+                    and isinstance(a0.args[0], ast.Call) and isinstance(a0.args[0].func, ast.Name) and a0.args[0].func.id == "iter" \
+                    and len(a0.args[0].args) == 1 and self_attr(a0.args[0].args[0], cm.queue):
                 left.append(c)
         ck.ob("C06.R3", fa.key(wst, "evict-lru-end"), bool(left),
               "the loop evicts queue.popleft() (least recently used end)" if left else
@@ -676,7 +847,7 @@ def _loop_exits(fa, wst):
     """Branch edges (node, label) of tests inside the loop `wst` (its own test included)."""
     out = []
     for n in fa.cfg.nodes:
-        if n.kind == "test" and n.ast is not None and (n.ast is wst.test or fa.inside(n.ast, wst)):
+        if n.kind == "test" and n.ast is not None and (n.ast is getattr(wst, "test", None) or fa.inside(n.ast, wst)):
             out += [(n.id, "T"), (n.id, "F")]
     return out
 
